@@ -212,7 +212,7 @@ func (a *aggregate) write(file, meta string) error {
 		rule = "A case is one seeded history (a script of Add*/Execute*/SetField/... calls on 1-3 objects of one client, interleaved with package-level calls, salted with the C12 perturbations) run against the instrumented real library, every execute compared with a fresh-object reference. distinct_nontrivial counts distinct history SHAPES: hash of the sequence (operation kind, perturbation flags); every history contains at least one judged execute."
 	case "C17":
 		distinct = len(a.stats.Judged)
-		rule = "A case is one seeded subject (a single call or a whole object history) executed 7 times in one process (reference, immediate, after GC, after heap churn, on a new goroutine with a different stack depth, with another pool-recycling stream, interleaved with 1-3 other tasks by the seeded scheduler), plus a subset re-run in fresh processes under three other GOMAXPROCS/GOGC settings. distinct_nontrivial counts distinct (repeat variant, operation kind) pairs whose outcomes were actually compared bit by bit."
+		rule = "A case is one seeded subject (a single call or a whole object history) executed 8-9 times in one process (reference, immediate, after GC, after heap churn, on a new goroutine with a different stack depth, with another pool-recycling stream, after the other tasks' calls, with its own internal tasks rescheduled if it has any, interleaved with 1-3 other tasks by the seeded scheduler), plus a subset re-run in fresh processes under three other GOMAXPROCS/GOGC settings. distinct_nontrivial counts distinct (repeat variant, operation kind) pairs whose outcomes were actually compared bit by bit."
 	default:
 		distinct = len(a.scheds)
 		rule = "A case is one seeded run: 2-4 tasks, each a script of package-level calls and histories on task-owned objects over shared read-only inputs, executed solo and then interleaved by the seeded cooperative scheduler in a -race build with happens-before-transparent handoffs. distinct_nontrivial counts distinct hashes of the context-switch sequence (task, stop site) combined with the script shape, for runs with at least one switch inside library code."
@@ -246,7 +246,7 @@ func (a *aggregate) write(file, meta string) error {
 	var zero []string
 	expect := map[string][]string{
 		"C12": {"exec-other", "exec-tree", "exec-noclip", "add-split", "add-reorder", "add-after-exec", "dirty-solution", "solution-alias", "scribble-input", "scribble-output", "field-change", "callback-toggle", "reentrant-call"},
-		"C17": {"immediate", "gc", "heap-churn", "new-goroutine", "pool-recycle", "interleaved", "preempt", "preempt-shared"},
+		"C17": {"immediate", "gc", "heap-churn", "new-goroutine", "other-pool-stream", "after-other-calls", "interleaved", "preempt", "preempt-shared"},
 		"C18": {"preempt", "preempt-shared", "preempt-in-dependency", "preempt-in-callback", "pool-recycle-cross-task", "reentrant-call", "callback-entered"},
 	}
 	for _, k := range expect[a.prop] {
